@@ -147,7 +147,7 @@ void FlexPath::scale(double scael_factor, const Vec2 center) {
     if (scale_width) wo_scale.u = wo_scale.v;
     FlexPathElement* el = elements;
     for (uint64_t ne = 0; ne < num_elements; ne++, el++) {
-        el->end_extensions *= scael_factor;
+        el->end_extensions *= fabs(scael_factor);
         Vec2* wo = el->half_width_and_offset.items;
         for (uint64_t num = spine.point_array.count; num > 0; num--) *wo++ *= wo_scale;
     }
@@ -217,13 +217,15 @@ void FlexPath::transform(double magnification, bool x_reflection, double rotatio
         p->x = q.x * ca - q.y * sa + origin.x;
         p->y = q.x * sa + q.y * ca + origin.y;
     }
-    Vec2 wo_scale = {1, magnification};
-    if (scale_width) wo_scale.x = magnification;
+    // Widths, offsets and extensions are lengths: a negative magnification is a rotation by 180 degrees
+    const double abs_mag = fabs(magnification);
+    Vec2 wo_scale = {1, abs_mag};
+    if (scale_width) wo_scale.x = abs_mag;
     // A reflection moves every offset to the other side of the spine
     if (x_reflection) wo_scale.y = -wo_scale.y;
     FlexPathElement* el = elements;
     for (uint64_t ne = 0; ne < num_elements; ne++, el++) {
-        el->end_extensions *= magnification;
+        el->end_extensions *= abs_mag;
         Vec2* wo = el->half_width_and_offset.items;
         for (uint64_t num = spine.point_array.count; num > 0; num--) *wo++ *= wo_scale;
     }
